@@ -96,6 +96,16 @@ CLAIMED = {
             "scenarios are restricted to race-free ones (applications read the request before answering, large client windows and "
             "socket buffers, client acts after quiescent pauses); the comparison stops just before the harness's own final shutdown; "
             "which worker is right is not decided"),
+    "C17": ("5/C17", "Complete enumeration of WSGI application shape (list, eager/lazy generator, iterators with close(), raising before / "
+            "after start_response / in mid-iteration, empty chunks, empty iterable, no start_response) x protocol x worker, body size "
+            "{limit-1, limit, limit+1} x framing, root_path x path, and WebSocket requests; plus seeded search over request "
+            "sequences (methods, escaped / UTF-8 paths, root_path prefixes, repeated headers, bodies around the limit), thread/loop "
+            "hand-over delays, client stalls and client loss while the iterable is consumed.  The WSGI application runs in real "
+            "threads that hold a baton with the event loop, so the interleaving is the simulator's; environ is compared with an "
+            "independent PEP 3333 construction, the response with what the application produced, close() is counted.",
+            "threads are run one at a time (a thread slice is atomic with respect to the loop between two call-backs); write() "
+            "callable and exc_info are not exercised; a path outside root_path is answered 404 by the adapter and only checked "
+            "for not reaching the application"),
     "C18": ("5/C18", "Complete enumeration of every limit value x approach / hit / exceed x arrival shape x worker (h11_max_incomplete_size "
             "with heads in one read, two reads or dribbled, as first or second request; h2_max_concurrent_streams with 0/1/3 excess "
             "streams held open; h2_max_header_list_size with one field, many fields or CONTINUATION; keep_alive_max_requests "
